@@ -60,7 +60,7 @@ def _(I, ctx, r, idx):
 def _(I, ctx, r):
     v = deref(r); items = v.items if isinstance(v, VecV) else v
     return SOME(Ref(lambda: items[0], None)) if items else NONE()
-@model('re:^Box::<.*>::new$')
+@model('re:^Box(::<.*>)?::new$')
 def _(I, ctx, v): return v
 @model('re:^Option::<.*>::is_some$|^Option::is_some$')
 def _(I, ctx, r): return deref(r).variant == 'Some'
@@ -304,6 +304,66 @@ def _(I, ctx, r):
     return Agg('Result', [Agg('ParseFloatError', [])], 'Err', 1)
 @model('re:^std::f64::<impl f64>::powi$')
 def _(I, ctx, x, n): return Agg('f64', [('powi', x, n)])
+@model('std::ops::RangeInclusive::contains')
+def _(I, ctx, r, x):
+    rg = deref(r); v = deref(x)
+    lo, hi = rg.fields[0], rg.fields[1]
+    return z3.And(z3.ULE(lo.z(), v.z()), z3.ULE(v.z(), hi.z()))
+@model('re:^<.* as Itertools>::find_position$')
+def _(I, ctx, it, f):
+    i = 0
+    while True:
+        o = it_next(ctx, it)
+        if o.variant == 'None': return NONE()
+        x = o.fields[0]
+        keep = call_callable(I, ctx, f, [Ref((lambda v: (lambda: v))(x), None)])
+        if not isinstance(keep, bool): keep = ctx.branch(keep)
+        if keep: return SOME(Agg('tuple', [BV(i, 64), x]))
+        i += 1
+@model('re:^<.* as Iterator>::any$')
+def _(I, ctx, it, f):
+    it = deref(it)
+    while True:
+        o = it_next(ctx, it)
+        if o.variant == 'None': return False
+        keep = call_callable(I, ctx, f, [o.fields[0]])
+        if not isinstance(keep, bool): keep = ctx.branch(keep)
+        if keep: return True
+def _is_ws(ctx, b):
+    # char::is_whitespace restricted to one-byte chars (multi-byte whitespace: U+0085, U+00A0 ... handled as non-ws bytes here; spike only)
+    if b.conc(): return b.e in (9, 10, 11, 12, 13, 32)
+    return ctx.branch(z3.Or([b.z() == k for k in (9, 10, 11, 12, 13, 32)]))
+@model('re:^core::str::<impl str>::trim$')
+def _(I, ctx, r):
+    b = deref(r).b; lo, hi = 0, len(b)
+    while lo < hi and _is_ws(ctx, b[lo]): lo += 1
+    while hi > lo and _is_ws(ctx, b[hi-1]): hi -= 1
+    s = StrV(b[lo:hi]); return Ref(lambda: s, None)
+@model('re:^<str as PartialEq>::eq$|^<&str as PartialEq>::eq$|^<&str as PartialEq<&str>>::eq$')
+def _(I, ctx, a, b):
+    x, y = deref(a), deref(b)
+    while isinstance(x, Ref): x = x.get()
+    while isinstance(y, Ref): y = y.get()
+    if len(x.b) != len(y.b): return False
+    conds = []
+    for p, q in zip(x.b, y.b):
+        if p.conc() and q.conc():
+            if p.e != q.e: return False
+        else: conds.append(p.z() == q.z())
+    return z3.And(conds) if conds else True
+@model('re:^Option::is_some_and$')
+def _(I, ctx, o, f):
+    o = deref(o)
+    if o.variant == 'None': return False
+    return call_callable(I, ctx, f, [o.fields[0]])
+@model('re:^Option::as_ref$')
+def _(I, ctx, r):
+    o = deref(r)
+    if o.variant == 'None': return NONE()
+    v = o.fields[0]; return SOME(Ref(lambda: v, None))
+@model('re:^<Option<.*> as Deref>::deref$|^<Box<.*> as Deref>::deref$')
+def _(I, ctx, r):
+    v = deref(r); return Ref(lambda: v, None)
 I = mslib.I
 
 def sym_char(ctx, name):
